@@ -1,4 +1,4 @@
-CONSTANTS N = 4  MaxLen = 1  Variant = "ok"
+CONSTANTS N = 3  MaxLen = 3  Variant = "ok"
 SPECIFICATION Spec
 INVARIANTS RowLenInv Degap NoAllGapColumn MergePreserves ColumnsMonotone FinalOk
 CHECK_DEADLOCK FALSE
